@@ -235,7 +235,9 @@ public:
       buff[len] = '\0';
       PlatformSpecificHasher(std::string(buff)).readPathStringAndDigest(info.checksum);
     } else {
-      info.checksum = {0};
+      // Not a symbolic link: the link information describes the object itself,
+      // whose content is all this mode can tell changes by.
+      info.checksum = impl->getFileChecksum(path);
     }
 #else
     info.checksum = impl->getFileChecksum(path);
